@@ -11,13 +11,16 @@ real ingress converter + tracker):
 * `cycle`       = what one reconciliation does to the acme storages and the queue
 * `convCycle`   = which storages the ingress converter removes/re-acquires per sync
 
-Three places where the code does not meet the property are kept visible below: the full-strength
-statement in a comment, the `_partial` theorem with its side condition, and a kernel-checked
-counter-example on the model (the same inputs are in the harness corpus):
+Three defects found by this check were repaired in /repo; the models follow the repaired code and
+the statements are at full strength. The former behaviour is kept as `*Old` definitions with
+kernel-checked witnesses (the same inputs stay in the harness corpus):
 
-1. `full-sync-vanished-storage-not-removed` — `config.Clear()` drops the storages object
-2. `changed-storage-not-enqueued` — the converter mutates an existing storage in place
-3. `empty-domain-set-requested` — a storage without domains asks for the name ""
+1. `full-sync-vanished-storage-not-removed` — `config.Clear()` dropped the storages object
+   (repaired: the object is carried over, its items become removal candidates)
+2. `changed-storage-not-enqueued` — `Acquire` handed out a committed storage that was then changed
+   in place (repaired: `Acquire` snapshots it into `itemsDel` and registers it in `itemsAdd`)
+3. `empty-domain-set-requested` — a TLS block without hosts declared a storage without domains,
+   for which the signer asks the name "" (repaired: such a block declares no storage)
 -/
 namespace HapVerif.C17
 
@@ -125,10 +128,11 @@ theorem needed_iff (i : VIn) :
     · rintro ⟨na', sans', ⟨rfl, rfl⟩, h⟩
       exact h
 
-/-- **sign_iff** (for a non-empty declared domain set): with an account, `Client.Sign` is called
+/-- **sign_iff**: for a queue item that carries at least one domain (every item the converter
+produces: `ingAcqs_have_domains`, `conv_items_have_domains`) and with an account, `Client.Sign` is called
 iff the secret is missing/unreadable, or `NotAfter < now + window` (strict), or some declared
 domain is not covered by the certificate. -/
-theorem sign_iff_partial (i : VIn) (hd : i.declared ≠ []) :
+theorem sign_iff (i : VIn) (hd : i.declared ≠ []) :
     (notify i).signed.isSome = true ↔ i.acct = true ∧
       (i.secret = .missing ∨ ∃ na sans, i.secret = .cert na sans ∧
         (na < i.now + i.window ∨ ∃ d ∈ i.declared, covered sans d = false)) := by
@@ -184,22 +188,21 @@ theorem store_only_both (i : VIn) :
   · simp [ha]
 
 
-/- Full-strength statement (does NOT hold, see `sign_iff_fails_for_empty_domain_set`):
-
-   theorem sign_iff (i : VIn) : (notify i).signed.isSome = true ↔ i.acct = true ∧ (i.secret = .missing ∨ ...)
-
-   It needs `i.declared ≠ []`: `buildAcmeStorages` renders an empty domain set as "name,chain," and
-   `Notify` splits that into the single domain "", which no certificate covers. -/
+/- Historical (finding 3): without `i.declared ≠ []` the statement fails. `buildAcmeStorages` renders an
+   empty domain set as "name,chain," and `Notify` splits that into the single domain "", which no
+   certificate covers. Since the repair no storage without domains exists any more. -/
 
 def emptyWitness : VIn :=
   { acct := true, secret := .cert 100 [["a", "x"]], now := 0, window := 10, declared := [],
     sign := ⟨true, true, false⟩, setErr := false }
 
-/-- counter-example: valid, not expiring certificate, no declared domain — nothing is needed, yet
-`Sign([""])` is called and its result stored -/
+/-- witness: valid, not expiring certificate, no declared domain — nothing is needed, yet
+`Sign([""])` is called and its result stored; and this is how such an item came to be -/
 theorem sign_iff_fails_for_empty_domain_set :
     needed emptyWitness = false ∧ (notify emptyWitness).signed = some [[""]] ∧
-    (notify emptyWitness).written = true := by decide
+    (notify emptyWitness).written = true ∧
+    ingAcqsOld { name := "i1", rule := "r1.x", acme := true, chain := "", tls := [⟨"s1", []⟩] } = [⟨"s1", "", []⟩] ∧
+    ingAcqs { name := "i1", rule := "r1.x", acme := true, chain := "", tls := [⟨"s1", []⟩] } = [] := by decide
 
 /-- a valid certificate that covers every declared domain is never re-requested and the secret
 is not written -/
@@ -208,7 +211,7 @@ theorem valid_never_rerequested (i : VIn) (na : Int) (sans : List Name) (hd : i.
     (hc : ∀ d ∈ i.declared, covered sans d = true) :
     (notify i).signed = none ∧ (notify i).written = false := by
   have h1 : ¬ (notify i).signed.isSome = true := by
-    rw [sign_iff_partial i hd]
+    rw [sign_iff i hd]
     rintro ⟨_, h | ⟨na', sans', h, h2⟩⟩
     · rw [hs] at h; cases h
     · rw [hs] at h; cases h
@@ -235,7 +238,7 @@ theorem boundary_minus_one_renewed (i : VIn) (na : Int) (sans : List Name) (hd :
     (ha : i.acct = true) (hs : i.secret = .cert na sans) (ht : na + 1 = i.now + i.window) :
     (notify i).signed = some i.declared := by
   have h : (notify i).signed.isSome = true := by
-    rw [sign_iff_partial i hd]
+    rw [sign_iff i hd]
     exact ⟨ha, Or.inr ⟨na, sans, hs, Or.inl (by omega)⟩⟩
   cases hx : (notify i).signed with
   | none => rw [hx] at h; cases h
@@ -254,7 +257,7 @@ theorem subset_rerequested (i : VIn) (na : Int) (sans : List Name) (d : Name)
     (notify i).signed = some i.declared := by
   have hd : i.declared ≠ [] := by intro e; rw [e] at hm; cases hm
   have h : (notify i).signed.isSome = true := by
-    rw [sign_iff_partial i hd]
+    rw [sign_iff i hd]
     exact ⟨ha, Or.inr ⟨na, sans, hs, Or.inr ⟨d, hm, hc⟩⟩⟩
   cases hx : (notify i).signed with
   | none => rw [hx] at h; cases h
@@ -284,588 +287,17 @@ example : notify (exIn 0 [["a", "x"], ["b", "x"]] ⟨true, false, true⟩) =
 
 /-! ## (b) the queue follows the storages -/
 
-/-- **queue_follows** for one partial (incremental) cycle on the leader: the queue gets an `Add`
-for exactly the storages that are new or whose (chain, domain set) differs from before the cycle,
-and a `Remove` for exactly the former items that are gone or changed. -/
-theorem queue_follows_cycle_partial (s : Storages) (c : Cycle)
-    (hadd : s.add = []) (hdel : s.del = []) (hp : c.full = false) (hwf : c.wf s)
-    (hl : c.leader = true) (ha : c.acct = true) :
-    (∀ n x, QOp.add n x ∈ (cycle s c).2 ↔
-        find (cycle s c).1.items n = some x ∧ find s.items n ≠ some x) ∧
-    (∀ n x, QOp.remove n x ∈ (cycle s c).2 ↔
-        find s.items n = some x ∧ find (cycle s c).1.items n ≠ some x) := by
-  have inv := preUpdate_inv s c hadd hp hwf
-  have hud : Uniq (preUpdate s c).del := by
-    rw [inv.del]; apply removeAll_uniq_del; rw [hdel]; exact uniq_nil
-  have hdel0 : ∀ k, find (preUpdate s c).del k = if k ∈ c.dirty then find s.items k else none := by
-    intro k; rw [inv.del]; exact removeAll_del s c.dirty k hdel
-  have hit0 : ∀ k, find (removeAll s c.dirty).items k = if k ∈ c.dirty then none else find s.items k :=
-    fun k => removeAll_items s c.dirty k
-  rw [cycle_ops_leader s c hl ha, cycle_items]
-  constructor
-  · intro n x
-    rw [mem_ops_add, mem_iff_find (shrink_uniq_add inv.uadd), shrink_add, hdel0]
-    constructor
-    · rintro ⟨h1, h2⟩
-      refine ⟨inv.same n x h1, ?_⟩
-      intro hs
-      have hf := inv.fresh n (by rw [h1]; simp)
-      rw [hit0] at hf
-      by_cases hd : n ∈ c.dirty
-      · simp only [hd, if_true] at h2; exact h2 hs
-      · simp only [hd, if_false] at hf; rw [hf] at hs; cases hs
-    · rintro ⟨h1, h2⟩
-      cases hx : find (preUpdate s c).add n with
-      | none =>
-        have := inv.keep n hx
-        rw [h1, hit0] at this
-        by_cases hd : n ∈ c.dirty
-        · simp [hd] at this
-        · simp only [hd, if_false] at this; exact absurd this.symm h2
-      | some y =>
-        have := inv.same n y hx
-        rw [h1] at this; cases this
-        refine ⟨rfl, ?_⟩
-        by_cases hd : n ∈ c.dirty
-        · simp only [hd, if_true]; exact h2
-        · simp [hd]
-  · intro n x
-    rw [mem_ops_remove, mem_iff_find (shrink_uniq_del hud), shrink_del, hdel0]
-    constructor
-    · rintro ⟨h1, h2⟩
-      by_cases hd : n ∈ c.dirty
-      · simp only [hd, if_true] at h1
-        refine ⟨h1, ?_⟩
-        intro hs
-        cases hx : find (preUpdate s c).add n with
-        | none =>
-          have := inv.keep n hx
-          rw [hs, hit0] at this; simp [hd] at this
-        | some y =>
-          have := inv.same n y hx
-          rw [hs] at this; cases this
-          exact h2 hx
-      · simp [hd] at h1
-    · rintro ⟨h1, h2⟩
-      by_cases hd : n ∈ c.dirty
-      · simp only [hd, if_true]
-        refine ⟨h1, ?_⟩
-        intro hx
-        exact h2 (inv.same n x hx)
-      · exfalso
-        cases hx : find (preUpdate s c).add n with
-        | none =>
-          have := inv.keep n hx
-          rw [hit0] at this; simp only [hd, if_false] at this
-          rw [h1] at this; exact h2 this
-        | some y =>
-          have := inv.fresh n (by rw [hx]; simp)
-          rw [hit0] at this; simp only [hd, if_false] at this
-          rw [h1] at this; cases this
-
-
-/-- incremental syncs do not re-enqueue (nor remove) an unchanged storage -/
-theorem unchanged_not_reenqueued (s : Storages) (c : Cycle)
-    (hadd : s.add = []) (hdel : s.del = []) (hp : c.full = false) (hwf : c.wf s)
-    (hl : c.leader = true) (ha : c.acct = true) (n : String) (x : Cert)
-    (h0 : find s.items n = some x) (h1 : find (cycle s c).1.items n = some x) :
-    QOp.add n x ∉ (cycle s c).2 ∧ QOp.remove n x ∉ (cycle s c).2 := by
-  have h := queue_follows_cycle_partial s c hadd hdel hp hwf hl ha
-  exact ⟨fun hm => ((h.1 n x).mp hm).2 h0, fun hm => ((h.2 n x).mp hm).2 h1⟩
-
-/-- non-leaders enqueue nothing -/
-theorem nonleader_enqueues_nothing (s : Storages) (c : Cycle) (h : c.leader = false) : (cycle s c).2 = [] := by
-  unfold cycle acmeUpdate; simp [h]
-
-/-- without an ACME account nothing is enqueued either -/
-theorem noaccount_enqueues_nothing (s : Storages) (c : Cycle) (h : c.acct = false) : (cycle s c).2 = [] := by
-  unfold cycle acmeUpdate
-  cases c.leader <;> simp [h]
-
-/-- a full sync on the leader (the code that exists): every storage of the new state is enqueued,
-nothing is ever removed — the old storages object, hence what vanished, is gone after `Clear()` -/
-theorem queue_full_cycle (s : Storages) (c : Cycle) (hf : c.full = true)
-    (hl : c.leader = true) (ha : c.acct = true) :
-    (∀ n x, QOp.add n x ∈ (cycle s c).2 ↔ find (cycle s c).1.items n = some x) ∧
-    (∀ n x, QOp.remove n x ∉ (cycle s c).2) := by
-  have hpre : preUpdate s c = applyAcqs {} c.acqs := by unfold preUpdate clear; simp [hf]
-  have inv : AcqInv {} (preUpdate s c) := by
-    rw [hpre]
-    apply applyAcqs_inv
-    · exact ⟨rfl, fun _ _ => rfl, fun k x h => by simp [find] at h, fun k h => by simp [find] at h, uniq_nil⟩
-    · intro a _; rfl
-  have hdel : (preUpdate s c).del = [] := inv.del
-  rw [cycle_ops_leader s c hl ha, cycle_items]
-  constructor
-  · intro n x
-    rw [mem_ops_add, mem_iff_find (shrink_uniq_add inv.uadd), shrink_add, hdel]
-    constructor
-    · rintro ⟨h1, _⟩; exact inv.same n x h1
-    · intro h1
-      refine ⟨?_, by simp [find]⟩
-      cases hx : find (preUpdate s c).add n with
-      | none => have := inv.keep n hx; rw [h1] at this; simp [find] at this
-      | some y => have := inv.same n y hx; rw [h1] at this; cases this; rfl
-  · intro n x
-    rw [mem_ops_remove]
-    have : (shrink (preUpdate s c)).del = [] := by unfold shrink; simp [hdel]
-    rw [this]; simp
-
-/-! ### histories -/
-
-/-- what the queue sees in one cycle, as the code behaves: `prev`/`new` are the storages before and
-after the cycle -/
-def SpecCycle (prev new : SMap) (c : Cycle) (o : List QOp) : Prop :=
-  if c.leader = true ∧ c.acct = true then
-    if c.full = true then
-      (∀ n x, QOp.add n x ∈ o ↔ find new n = some x) ∧ (∀ n x, QOp.remove n x ∉ o)
-    else
-      (∀ n x, QOp.add n x ∈ o ↔ find new n = some x ∧ find prev n ≠ some x) ∧
-      (∀ n x, QOp.remove n x ∈ o ↔ find prev n = some x ∧ find new n ≠ some x)
-  else o = []
-
-def Follows : Storages → List Cycle → List (List QOp) → Prop
-  | _, [], os => os = []
-  | _, _ :: _, [] => False
-  | s, c :: cs, o :: os => SpecCycle s.items (cycle s c).1.items c o ∧ Follows (cycle s c).1 cs os
-
-/-- every cycle of the history respects the converter contract -/
-def wfHist : Storages → List Cycle → Prop
-  | _, [] => True
-  | s, c :: cs => c.wf s ∧ wfHist (cycle s c).1 cs
-
-def decWfHist : (s : Storages) → (cs : List Cycle) → Decidable (wfHist s cs)
-  | _, [] => isTrue trivial
-  | s, c :: cs =>
-    have := decWfHist (cycle s c).1 cs
-    show Decidable (c.wf s ∧ wfHist (cycle s c).1 cs) from inferInstance
-instance (s : Storages) (cs : List Cycle) : Decidable (wfHist s cs) := decWfHist s cs
-
-/- Full-strength statement (does NOT hold for full syncs, see `full_sync_vanished_not_removed`):
-
-   theorem queue_follows : ... → Follows' s cs (runCycles s cs).2
-     where for EVERY cycle on the leader  adds ⊇ new ∖ prev,  removes = prev ∖ new
-
-   A full sync replaces the storages object (`config.Clear()` -> `createConfig`), so the entries
-   that disappear with it are never passed to `AcmeQueue.Remove`. -/
-
-/-- **queue_follows** over all histories of reconciliation cycles (partial and full, leader or not,
-with or without account) that start from a committed state and respect the converter contract:
-on the leader a partial cycle adds exactly the storages that appeared or changed and removes
-exactly the items that disappeared or changed; unchanged ones are not touched; a non-leader
-enqueues nothing; a full sync enqueues everything and removes nothing. -/
-theorem queue_follows_partial (cs : List Cycle) :
-    ∀ (s : Storages), s.add = [] → s.del = [] → wfHist s cs → Follows s cs (runCycles s cs).2 := by
-  induction cs with
-  | nil => intro s _ _ _; rfl
-  | cons c cs ih =>
-    intro s hadd hdel hw
-    simp only [runCycles, Follows]
-    refine ⟨?_, ih _ (cycle_committed s c).1 (cycle_committed s c).2 hw.2⟩
-    unfold SpecCycle
-    by_cases hla : c.leader = true ∧ c.acct = true
-    · simp only [hla, and_self, if_true]
-      by_cases hf : c.full = true
-      · simp only [hf, if_true]; exact queue_full_cycle s c hf hla.1 hla.2
-      · have hf' : c.full = false := by simpa using hf
-        simp only [hf', Bool.false_eq_true, if_false]
-        exact queue_follows_cycle_partial s c hadd hdel hf' hw.1 hla.1 hla.2
-    · simp only [hla, if_false]
-      by_cases hl : c.leader = true
-      · have : c.acct = false := by
-          cases h : c.acct with
-          | false => rfl
-          | true => exact absurd ⟨hl, h⟩ hla
-        exact noaccount_enqueues_nothing s c this
-      · exact nonleader_enqueues_nothing s c (by simpa using hl)
-
-/-- counter-example for full syncs: `s1` is declared, then a full sync without it — no `Remove` -/
-theorem full_sync_vanished_not_removed :
-    let c1 : Cycle := ⟨true, true, true, [], [⟨"s1", "", ["h1.x"]⟩]⟩
-    let c2 : Cycle := ⟨true, true, true, [], []⟩
-    let s1 := (cycle {} c1).1
-    find s1.items "s1" = some ⟨"", ["h1.x"]⟩ ∧ find (cycle s1 c2).1.items "s1" = none ∧
-    (cycle s1 c2).2 = [] ∧
-    oracleCycle true true true s1.items (cycle s1 c2).1.items (cycle s1 c2).2 =
-      some "full-sync-vanished-storage-not-removed" := by decide +kernel
-
-/-- non-vacuity of `queue_follows_partial`: a history with an appearing, a changing, an unchanged
-and a disappearing storage -/
-example :
-    let h : List Cycle :=
-      [⟨true, true, true, [], [⟨"s1", "", ["h1.x"]⟩, ⟨"s2", "", ["h2.x"]⟩]⟩,
-       ⟨false, true, true, ["s1", "s2"], [⟨"s1", "", ["h1.x", "h3.x"]⟩, ⟨"s2", "", ["h2.x"]⟩, ⟨"s3", "X1", ["h4.x"]⟩]⟩,
-       ⟨false, false, true, ["s3"], []⟩,
-       ⟨false, true, true, ["s2"], []⟩]
-    wfHist {} h ∧ (runCycles {} h).2 =
-      [[.add "s2" ⟨"", ["h2.x"]⟩, .add "s1" ⟨"", ["h1.x"]⟩],
-       [.add "s3" ⟨"X1", ["h4.x"]⟩, .add "s1" ⟨"", ["h1.x", "h3.x"]⟩, .remove "s1" ⟨"", ["h1.x"]⟩],
-       [],
-       [.remove "s2" ⟨"", ["h2.x"]⟩]] := by decide +kernel
-
-/-! ## (c) the ingress converter feeding the storages -/
-
-theorem acmeUpdate_items (l a : Bool) (s : Storages) : (acmeUpdate l a s).1.items = s.items := by
-  unfold acmeUpdate
-  cases l <;> cases a <;> rfl
-
-/-- after a full sync the storages are exactly what the ingress world declares -/
-theorem conv_full_items (s : ConvSt) (c : ConvCycle) (hf : c.full = true) :
-    (convCycle s c).1.st.items = declared c.world := by
-  unfold convCycle convPlan
-  simp only [hf, if_true]
-  rw [cycle_items]
-  unfold preUpdate declared clear
-  simp
-
-/-- if the plan the converter produces respects the contract, the queue follows (instance of
-`queue_follows_cycle_partial`) -/
-theorem conv_follows_if_wf (s : ConvSt) (c : ConvCycle) (hadd : s.st.add = []) (hdel : s.st.del = [])
-    (hp : c.full = false) (hl : c.leader = true) (ha : c.acct = true)
-    (hwf : (convPlan s c).1.wf s.st) :
-    (∀ n x, QOp.add n x ∈ (convCycle s c).2 ↔
-        find (convCycle s c).1.st.items n = some x ∧ find s.st.items n ≠ some x) ∧
-    (∀ n x, QOp.remove n x ∈ (convCycle s c).2 ↔
-        find s.st.items n = some x ∧ find (convCycle s c).1.st.items n ≠ some x) := by
-  have h1 : (convPlan s c).1.full = false := by unfold convPlan; simp [hp]
-  have h2 : (convPlan s c).1.leader = true := by unfold convPlan; simp [hp, hl]
-  have h3 : (convPlan s c).1.acct = true := by unfold convPlan; simp [hp, ha]
-  exact queue_follows_cycle_partial s.st (convPlan s c).1 hadd hdel h1 hwf h2 h3
-
-/- Full-strength statement (does NOT hold, see `inplace_change_not_enqueued`): for every history of
-   ingress worlds the plan of every partial sync respects the contract, hence
-   `oracleConv [] h (runConv {} h).2 = none`.
-
-   `trackAddedIngress` pre-tracks only host names and backends of an added/updated ingress, not
-   its acme storages: an ingress that starts to use a secret another (unchanged) ingress already
-   uses reaches `Acquire` of an existing, un-removed storage and extends it in place; the storage is
-   not in `itemsAdd`, nothing is enqueued until the next full sync / periodic check. -/
-
-def wA : World := [{ name := "i1", rule := "r1.x", acme := true, chain := "", tls := [⟨"s1", ["r1.x"]⟩] }]
-def wB : World := wA ++ [{ name := "i2", rule := "r2.x", acme := true, chain := "", tls := [⟨"s1", ["r2.x"]⟩] }]
-
-/-- counter-example: a second ingress sharing the TLS secret is added by a partial sync -/
-theorem inplace_change_not_enqueued :
-    let h : List ConvCycle := [⟨true, true, true, wA⟩, ⟨false, true, true, wB⟩]
-    let s1 := (convCycle {} ⟨true, true, true, wA⟩).1
-    ¬ (convPlan s1 ⟨false, true, true, wB⟩).1.wf s1.st ∧
-    declared wB = [("s1", ⟨"", ["r1.x", "r2.x"]⟩)] ∧
-    (runConv {} h).2 = [[.add "s1" ⟨"", ["r1.x"]⟩], []] ∧
-    oracleConv [] h (runConv {} h).2 = some "changed-storage-not-enqueued" := by decide +kernel
-
-/-- the same two worlds through a full sync: the new item is enqueued, but the item of the old
-domain set stays in the queue (finding 1 again) -/
-example : (runConv {} [⟨true, true, true, wA⟩, ⟨true, true, true, wB⟩]).2 =
-      [[.add "s1" ⟨"", ["r1.x"]⟩], [.add "s1" ⟨"", ["r1.x", "r2.x"]⟩]] ∧
-    oracleConv [] [⟨true, true, true, wA⟩, ⟨true, true, true, wB⟩]
-      (runConv {} [⟨true, true, true, wA⟩, ⟨true, true, true, wB⟩]).2 =
-      some "full-sync-vanished-storage-not-removed" := by decide +kernel
-
-/-- non-vacuity of the oracle: a history it accepts -/
-example : oracleConv [] [⟨true, true, true, wB⟩, ⟨false, true, true, wA⟩, ⟨false, false, true, wB⟩]
-    (runConv {} [⟨true, true, true, wB⟩, ⟨false, true, true, wA⟩, ⟨false, false, true, wB⟩]).2 = none := by
-  decide +kernel
-
-/-- deleting the sharing ingress again is tracked: old item removed, new one added -/
-example : (runConv {} [⟨true, true, true, wB⟩, ⟨false, true, true, wA⟩]).2 =
-    [[.add "s1" ⟨"", ["r1.x", "r2.x"]⟩], [.add "s1" ⟨"", ["r1.x"]⟩, .remove "s1" ⟨"", ["r1.x", "r2.x"]⟩]] := by
-  decide +kernel
-
-/-! ## a repair, checked on the model
-
-Not the code that exists: `Fix.*` models a small change of `pkg/haproxy/types/global.go`
-(`Acquire` registers an already committed storage that is handed out again, `Clear()` keeps the
-storages object and turns its items into removal candidates, `shrink` keeps the additions of a
-full sync) for which the FULL-STRENGTH statement is provable — without any contract on the
-converter. It is here to show that findings 1 and 2 have a small repair inside `AcmeStorages`
-and to make the switch of the model trivial once the code is changed. -/
-
-namespace Fix
-
-/-- proposed `Acquire`: an already committed storage that is handed out again is registered in
-`itemsAdd`, and a copy of its former state in `itemsDel` (so `shrink` cancels it when nothing
-changed and `AcmeUpdate` sees the difference otherwise) -/
-def acquire (s : Storages) (n chain : String) (doms : List String) : Storages :=
-  match find s.items n with
-  | none =>
-    let c : Cert := { chain := assignChain "" chain, doms := addDoms [] doms }
-    { s with items := insert s.items n c, add := insert s.add n c }
-  | some cur =>
-    let c : Cert := { chain := assignChain cur.chain chain, doms := addDoms cur.doms doms }
-    if (find s.add n).isSome then { s with items := insert s.items n c, add := insert s.add n c }
-    else { items := insert s.items n c, add := insert s.add n c,
-           del := if (find s.del n).isSome then s.del else insert s.del n cur }
-
-/-- proposed `AcmeStorages.Clear()` called by `config.Clear()` on the carried-over object: all the
-current storages become removal candidates -/
-def clear (s : Storages) : Storages :=
-  { items := [], add := [], del := s.items ++ s.del.filter (fun e => (find s.items e.1).isNone) }
-
-/-- proposed `shrink`: after a `Clear()` (full sync) equal pairs are only dropped from the removal
-side, so that a full sync still enqueues every storage -/
-def shrink (full : Bool) (s : Storages) : Storages :=
-  let same (n : String) : Bool := (find s.add n).isSome && find s.add n == find s.del n
-  { s with add := if full then s.add else s.add.filter (fun e => !same e.1),
-           del := s.del.filter (fun e => !same e.1) }
-
-/-- proposed `AcmeUpdate`: removals first -/
-def acmeUpdate (full leader acct : Bool) (s : Storages) : Storages × List QOp :=
-  if leader then
-    if !acct then (s, [])
-    else
-      let s' := shrink full s
-      (s', s'.add.map (fun e => QOp.add e.1 e.2) ++ s'.del.map (fun e => QOp.remove e.1 e.2))
-  else (shrink full s, [])
-
-def applyAcqs (s : Storages) (as : List Acq) : Storages :=
-  as.foldl (fun s a => acquire s a.name a.chain a.doms) s
-
-def preUpdate (s : Storages) (c : Cycle) : Storages :=
-  applyAcqs (if c.full then clear s else removeAll s c.dirty) c.acqs
-
-def cycle (s : Storages) (c : Cycle) : Storages × List QOp :=
-  let r := acmeUpdate c.full c.leader c.acct (preUpdate s c)
-  (commit r.1, r.2)
-
-def runCycles (s : Storages) : List Cycle → Storages × List (List QOp)
-  | [] => (s, [])
-  | c :: cs =>
-    let r := cycle s c
-    let rest := runCycles r.1 cs
-    (rest.1, r.2 :: rest.2)
-
-/-- invariant of the acquisitions relative to the state `s0` they start from and the storages `P`
-before the cycle -/
-structure Inv (s0 : Storages) (P : SMap) (s : Storages) : Prop where
-  keep : ∀ k, find s.add k = none → find s.items k = find s0.items k ∧ find s.del k = find s0.del k
-  same : ∀ k c, find s.add k = some c → find s.items k = some c
-  old  : ∀ k, find s.add k ≠ none → find s.del k = find P k
-  uadd : Uniq s.add
-  udel : Uniq s.del
-
-/-- what the start state must satisfy w.r.t. `P` -/
-structure Start (s0 : Storages) (P : SMap) : Prop where
-  h0 : ∀ k, find s0.items k = none → find s0.del k = find P k
-  h1 : ∀ k c, find s0.items k = some c → find s0.del k = none ∧ find P k = some c
-
-theorem acquire_inv {s0 s : Storages} {P : SMap} (hs : Start s0 P) (h : Inv s0 P s)
-    (n ch : String) (ds : List String) : Inv s0 P (acquire s n ch ds) := by
-  unfold acquire
-  split
-  · rename_i hnone
-    have hadd : find s.add n = none := by
-      cases hx : find s.add n with
-      | none => rfl
-      | some y => have := h.same n y hx; rw [hnone] at this; cases this
-    have hk := h.keep n hadd
-    have hdel : find s.del n = find P n := by rw [hk.2]; exact hs.h0 n (by rw [← hk.1]; exact hnone)
-    refine ⟨?_, ?_, ?_, uniq_insert h.uadd _ _, h.udel⟩
-    · intro k hk
-      simp only [find_insert] at hk ⊢
-      by_cases e : k = n
-      · simp [e] at hk
-      · simp only [e, if_false] at hk ⊢; exact h.keep k hk
-    · intro k c hk
-      simp only [find_insert] at hk ⊢
-      by_cases e : k = n
-      · simp only [e, if_true] at hk ⊢; exact hk
-      · simp only [e, if_false] at hk ⊢; exact h.same k c hk
-    · intro k hk
-      simp only [find_insert] at hk
-      by_cases e : k = n
-      · subst e; exact hdel
-      · simp only [e, if_false] at hk; exact h.old k hk
-  · rename_i cur hcur
-    cases hx : find s.add n with
-    | some y =>
-      simp only [Option.isSome_some, if_true]
-      refine ⟨?_, ?_, ?_, uniq_insert h.uadd _ _, h.udel⟩
-      · intro k hk
-        simp only [find_insert] at hk ⊢
-        by_cases e : k = n
-        · simp [e] at hk
-        · simp only [e, if_false] at hk ⊢; exact h.keep k hk
-      · intro k c hk
-        simp only [find_insert] at hk ⊢
-        by_cases e : k = n
-        · simp only [e, if_true] at hk ⊢; exact hk
-        · simp only [e, if_false] at hk ⊢; exact h.same k c hk
-      · intro k hk
-        simp only [find_insert] at hk
-        by_cases e : k = n
-        · subst e; exact h.old k (by rw [hx]; simp)
-        · simp only [e, if_false] at hk; exact h.old k hk
-    | none =>
-      have hk := h.keep n hx
-      have h1 := hs.h1 n cur (by rw [← hk.1]; exact hcur)
-      have hdn : find s.del n = none := by rw [hk.2]; exact h1.1
-      simp only [Option.isSome_none, Bool.false_eq_true, if_false, hdn]
-      refine ⟨?_, ?_, ?_, uniq_insert h.uadd _ _, uniq_insert h.udel _ _⟩
-      · intro k hk
-        simp only [find_insert] at hk ⊢
-        by_cases e : k = n
-        · simp [e] at hk
-        · simp only [e, if_false] at hk ⊢; exact h.keep k hk
-      · intro k c hk
-        simp only [find_insert] at hk ⊢
-        by_cases e : k = n
-        · simp only [e, if_true] at hk ⊢; exact hk
-        · simp only [e, if_false] at hk ⊢; exact h.same k c hk
-      · intro k hk
-        simp only [find_insert] at hk ⊢
-        by_cases e : k = n
-        · subst e; simp only [if_true]; exact h1.2.symm
-        · simp only [e, if_false] at hk ⊢; exact h.old k hk
-
-theorem applyAcqs_inv {s0 : Storages} {P : SMap} (hs : Start s0 P) (as : List Acq) {s : Storages}
-    (h : Inv s0 P s) : Inv s0 P (applyAcqs s as) := by
-  unfold applyAcqs
-  induction as generalizing s with
-  | nil => exact h
-  | cons a t ih => simp only [List.foldl_cons]; exact ih (acquire_inv hs h _ _ _)
-
-
-theorem find_append (a b : SMap) (k : String) :
-    find (a ++ b) k = match find a k with | some c => some c | none => find b k := by
-  induction a with
-  | nil => simp [find]
-  | cons e t ih =>
-    obtain ⟨x, v⟩ := e
-    simp only [List.cons_append, find]
-    by_cases h : x = k
-    · simp [h]
-    · simp [h, ih]
-
-theorem shrink_add_partial (s : Storages) (k : String) (c : Cert) :
-    find (shrink false s).add k = some c ↔ find s.add k = some c ∧ find s.del k ≠ some c :=
-  HapVerif.C17.shrink_add s k c
-
-theorem shrink_del (full : Bool) (s : Storages) (k : String) (c : Cert) :
-    find (shrink full s).del k = some c ↔ find s.del k = some c ∧ find s.add k ≠ some c :=
-  HapVerif.C17.shrink_del s k c
-
-theorem shrink_add_full (s : Storages) : (shrink true s).add = s.add := rfl
-
-theorem shrink_uniq_add (full : Bool) {s : Storages} (h : Uniq s.add) : Uniq (shrink full s).add := by
-  unfold shrink; cases full
-  · exact uniq_filter _ h
-  · exact h
-theorem shrink_uniq_del (full : Bool) {s : Storages} (h : Uniq s.del) : Uniq (shrink full s).del := uniq_filter _ h
-
-/-- start state of a partial cycle -/
-theorem start_partial (s : Storages) (dirty : List String) (hdel : s.del = []) :
-    Start (removeAll s dirty) s.items := by
-  constructor
-  · intro k hk
-    rw [removeAll_items] at hk; rw [removeAll_del s dirty k hdel]
-    by_cases hd : k ∈ dirty
-    · simp [hd]
-    · simp only [hd, if_false] at hk ⊢; exact hk.symm
-  · intro k c hk
-    rw [removeAll_items] at hk; rw [removeAll_del s dirty k hdel]
-    by_cases hd : k ∈ dirty
-    · simp [hd] at hk
-    · simp only [hd, if_false] at hk ⊢; exact ⟨trivial, hk⟩
-
-theorem clear_del (s : Storages) (hdel : s.del = []) : (clear s).del = s.items := by
-  unfold clear; simp [hdel]
-
-theorem start_full (s : Storages) (hdel : s.del = []) : Start (clear s) s.items := by
-  constructor
-  · intro k _; rw [clear_del s hdel]
-  · intro k c hk; simp [clear, find] at hk
-
-theorem inv_init (s0 : Storages) (P : SMap) (ha : s0.add = []) (hu : Uniq s0.del) : Inv s0 P s0 :=
-  ⟨fun _ _ => ⟨rfl, rfl⟩, fun k c h => by rw [ha] at h; simp [find] at h,
-   fun k h => by rw [ha] at h; simp [find] at h, by rw [ha]; exact uniq_nil, hu⟩
-
-theorem cycle_items (s : Storages) (c : Cycle) : (cycle s c).1.items = (preUpdate s c).items := by
-  unfold cycle acmeUpdate commit
-  split
-  · split <;> rfl
-  · rfl
-
-theorem cycle_committed (s : Storages) (c : Cycle) : (cycle s c).1.add = [] ∧ (cycle s c).1.del = [] := by
-  unfold cycle commit; exact ⟨rfl, rfl⟩
-
-theorem cycle_ops_leader (s : Storages) (c : Cycle) (hl : c.leader = true) (ha : c.acct = true) :
-    (cycle s c).2 = (shrink c.full (preUpdate s c)).add.map (fun e => QOp.add e.1 e.2) ++
-                    (shrink c.full (preUpdate s c)).del.map (fun e => QOp.remove e.1 e.2) := by
-  unfold cycle acmeUpdate; simp [hl, ha]
-
-/-- removals, for both kinds of cycle -/
-theorem removes_char {s0 s : Storages} {P : SMap} (_hs : Start s0 P) (inv : Inv s0 P s)
-    (h2 : ∀ k c, find s0.del k = some c → find P k = some c ∧ find s0.items k = none)
-    (h3 : ∀ k c, find P k = some c → find s0.items k = some c ∨ find s0.del k = some c)
-    (k : String) (x : Cert) :
-    (find s.del k = some x ∧ find s.add k ≠ some x) ↔ (find P k = some x ∧ find s.items k ≠ some x) := by
-  constructor
-  · rintro ⟨hd, ha⟩
-    cases hx : find s.add k with
-    | none =>
-      have hk := inv.keep k hx
-      rw [hk.2] at hd
-      have := h2 k x hd
-      exact ⟨this.1, by rw [hk.1, this.2]; simp⟩
-    | some y =>
-      have ho := inv.old k (by rw [hx]; simp)
-      rw [ho] at hd
-      refine ⟨hd, ?_⟩
-      rw [inv.same k y hx]
-      intro e; cases e; exact ha hx
-  · rintro ⟨hp, hn⟩
-    cases hx : find s.add k with
-    | none =>
-      have hk := inv.keep k hx
-      rcases h3 k x hp with h | h
-      · rw [hk.1] at hn; exact absurd h hn
-      · exact ⟨by rw [hk.2]; exact h, by simp⟩
-    | some y =>
-      have ho := inv.old k (by rw [hx]; simp)
-      refine ⟨by rw [ho]; exact hp, ?_⟩
-      intro e; cases e
-      exact hn (inv.same k x hx)
-
-theorem removeOne_uniq_items {s : Storages} (h : Uniq s.items) (n : String) : Uniq (removeOne s n).items := by
-  unfold removeOne; split
-  · exact uniq_erase h _
-  · exact h
-
-theorem removeAll_uniq_items {s : Storages} (h : Uniq s.items) (ns : List String) : Uniq (removeAll s ns).items := by
-  unfold removeAll
-  induction ns generalizing s with
-  | nil => exact h
-  | cons n t ih => simp only [List.foldl_cons]; exact ih (removeOne_uniq_items h n)
-
-theorem acquire_uniq_items {s : Storages} (h : Uniq s.items) (n ch : String) (ds : List String) :
-    Uniq (acquire s n ch ds).items := by
-  unfold acquire; split
-  · exact uniq_insert h _ _
-  · split <;> exact uniq_insert h _ _
-
-theorem applyAcqs_uniq_items (as : List Acq) {s : Storages} (h : Uniq s.items) : Uniq (applyAcqs s as).items := by
-  unfold applyAcqs
-  induction as generalizing s with
-  | nil => exact h
-  | cons a t ih => simp only [List.foldl_cons]; exact ih (acquire_uniq_items h _ _ _)
-
-theorem cycle_uniq_items (s : Storages) (c : Cycle) (hu : Uniq s.items) : Uniq (cycle s c).1.items := by
-  rw [cycle_items]; unfold preUpdate
-  apply applyAcqs_uniq_items
-  cases c.full
-  · exact removeAll_uniq_items hu _
-  · exact uniq_nil
-
-/-- **queue_follows for the repaired model**, one cycle, no converter contract: on the leader the
+/-- **queue_follows**, one cycle, no contract on what the converter removes or acquires: on the leader the
 queue gets a `Remove` for exactly the former items that are gone or changed — partial AND full
 sync — and an `Add` for exactly the new/changed storages (partial) or for every storage (full). -/
 theorem queue_follows_cycle (s : Storages) (c : Cycle) (hadd : s.add = []) (hdel : s.del = [])
-    (hu : Uniq s.items) (hl : c.leader = true) (ha : c.acct = true) :
+    (hcl : s.cleared = false) (hu : Uniq s.items) (hl : c.leader = true) (ha : c.acct = true) :
     (∀ n x, QOp.add n x ∈ (cycle s c).2 ↔
         find (cycle s c).1.items n = some x ∧ (c.full = true ∨ find s.items n ≠ some x)) ∧
     (∀ n x, QOp.remove n x ∈ (cycle s c).2 ↔
         find s.items n = some x ∧ find (cycle s c).1.items n ≠ some x) := by
   rw [cycle_ops_leader s c hl ha, cycle_items]
+  have hpc := preUpdate_cleared s c hcl
   cases hf : c.full with
   | false =>
     have hs := start_partial s c.dirty hdel
@@ -889,7 +321,7 @@ theorem queue_follows_cycle (s : Storages) (c : Cycle) (hadd : s.add = []) (hdel
       · simp [hd, h]
     constructor
     · intro n x
-      rw [mem_ops_add, mem_iff_find (shrink_uniq_add _ inv.uadd), shrink_add_partial]
+      rw [mem_ops_add, mem_iff_find (shrink_uniq_add inv.uadd), shrink_add_partial _ (by rw [hpc, hf])]
       simp only [Bool.false_eq_true, false_or]
       constructor
       · rintro ⟨h1, hd⟩
@@ -906,7 +338,7 @@ theorem queue_follows_cycle (s : Storages) (c : Cycle) (hadd : s.add = []) (hdel
           rw [h1] at this; cases this
           exact ⟨rfl, by rw [inv.old n (by rw [hx]; simp)]; exact hp⟩
     · intro n x
-      rw [mem_ops_remove, mem_iff_find (shrink_uniq_del _ inv.udel), shrink_del]
+      rw [mem_ops_remove, mem_iff_find (shrink_uniq_del inv.udel), shrink_del]
       exact removes_char hs inv h2 h3 n x
   | true =>
     have hs := start_full s hdel
@@ -921,7 +353,7 @@ theorem queue_follows_cycle (s : Storages) (c : Cycle) (hadd : s.add = []) (hdel
       intro k x h; right; rw [clear_del s hdel]; exact h
     constructor
     · intro n x
-      rw [mem_ops_add, mem_iff_find (shrink_uniq_add _ inv.uadd), shrink_add_full]
+      rw [mem_ops_add, mem_iff_find (shrink_uniq_add inv.uadd), shrink_add_full _ (by rw [hpc, hf])]
       simp only [true_or, and_true]
       constructor
       · exact inv.same n x
@@ -934,80 +366,314 @@ theorem queue_follows_cycle (s : Storages) (c : Cycle) (hadd : s.add = []) (hdel
           have := inv.same n y hx
           rw [h1] at this; cases this; rfl
     · intro n x
-      rw [mem_ops_remove, mem_iff_find (shrink_uniq_del _ inv.udel), shrink_del]
+      rw [mem_ops_remove, mem_iff_find (shrink_uniq_del inv.udel), shrink_del]
       exact removes_char hs inv h2 h3 n x
 
-/-- Spec of one cycle at full strength -/
-def SpecFull (prev new : SMap) (c : Cycle) (o : List QOp) : Prop :=
-  if c.leader = true ∧ c.acct = true then
-    (∀ n x, QOp.add n x ∈ o ↔ find new n = some x ∧ (c.full = true ∨ find prev n ≠ some x)) ∧
-    (∀ n x, QOp.remove n x ∈ o ↔ find prev n = some x ∧ find new n ≠ some x)
-  else o = []
 
-def FollowsFull : Storages → List Cycle → List (List QOp) → Prop
-  | _, [], os => os = []
-  | _, _ :: _, [] => False
-  | s, c :: cs, o :: os => SpecFull s.items (cycle s c).1.items c o ∧ FollowsFull (cycle s c).1 cs os
+/-- incremental syncs do not re-enqueue (nor remove) an unchanged storage -/
+theorem unchanged_not_reenqueued (s : Storages) (c : Cycle)
+    (hadd : s.add = []) (hdel : s.del = []) (hcl : s.cleared = false) (hu : Uniq s.items)
+    (hp : c.full = false) (hl : c.leader = true) (ha : c.acct = true) (n : String) (x : Cert)
+    (h0 : find s.items n = some x) (h1 : find (cycle s c).1.items n = some x) :
+    QOp.add n x ∉ (cycle s c).2 ∧ QOp.remove n x ∉ (cycle s c).2 := by
+  have h := queue_follows_cycle s c hadd hdel hcl hu hl ha
+  refine ⟨fun hm => ?_, fun hm => ((h.2 n x).mp hm).2 h1⟩
+  rcases ((h.1 n x).mp hm).2 with hf | hne
+  · rw [hp] at hf; cases hf
+  · exact hne h0
 
+/-- non-leaders, and leaders without an ACME account, enqueue nothing -/
 theorem not_leader_or_account (s : Storages) (c : Cycle) (h : ¬ (c.leader = true ∧ c.acct = true)) :
     (cycle s c).2 = [] := by
   unfold cycle acmeUpdate
   cases hl : c.leader <;> cases ha : c.acct <;> simp_all
 
-/-- **queue_follows, full strength, for the repaired model**: all histories of partial and full
-cycles, no contract on what the converter removes or acquires -/
-theorem queue_follows_repaired (cs : List Cycle) :
-    ∀ (s : Storages), s.add = [] → s.del = [] → Uniq s.items → FollowsFull s cs (runCycles s cs).2 := by
+theorem nonleader_enqueues_nothing (s : Storages) (c : Cycle) (h : c.leader = false) : (cycle s c).2 = [] :=
+  not_leader_or_account s c (by simp [h])
+
+/-! ### histories -/
+
+/-- what the queue must see in one cycle: `prev`/`new` are the storages before and after it -/
+def SpecCycle (prev new : SMap) (c : Cycle) (o : List QOp) : Prop :=
+  if c.leader = true ∧ c.acct = true then
+    (∀ n x, QOp.add n x ∈ o ↔ find new n = some x ∧ (c.full = true ∨ find prev n ≠ some x)) ∧
+    (∀ n x, QOp.remove n x ∈ o ↔ find prev n = some x ∧ find new n ≠ some x)
+  else o = []
+
+def Follows : Storages → List Cycle → List (List QOp) → Prop
+  | _, [], os => os = []
+  | _, _ :: _, [] => False
+  | s, c :: cs, o :: os => SpecCycle s.items (cycle s c).1.items c o ∧ Follows (cycle s c).1 cs os
+
+/-- **queue_follows**, full strength, over ALL histories of reconciliation cycles (partial and full,
+leader or not, with or without account, whatever the converter removes and acquires) from a
+committed state: on the leader a cycle removes exactly the items that disappeared or changed; a
+partial cycle enqueues exactly the storages that appeared or changed (unchanged ones are not
+touched), a full sync enqueues every storage; a non-leader enqueues nothing. -/
+theorem queue_follows (cs : List Cycle) :
+    ∀ (s : Storages), s.add = [] → s.del = [] → s.cleared = false → Uniq s.items →
+      Follows s cs (runCycles s cs).2 := by
   induction cs with
-  | nil => intro s _ _ _; rfl
+  | nil => intro s _ _ _ _; rfl
   | cons c cs ih =>
-    intro s hadd hdel hu
-    simp only [runCycles, FollowsFull]
-    refine ⟨?_, ih _ (cycle_committed s c).1 (cycle_committed s c).2 (cycle_uniq_items s c hu)⟩
-    unfold SpecFull
+    intro s hadd hdel hcl hu
+    simp only [runCycles, Follows]
+    have hc := cycle_committed s c
+    refine ⟨?_, ih _ hc.1 hc.2.1 hc.2.2 (cycle_uniq_items s c hu)⟩
+    unfold SpecCycle
     by_cases hla : c.leader = true ∧ c.acct = true
     · simp only [hla, and_self, if_true]
-      exact queue_follows_cycle s c hadd hdel hu hla.1 hla.2
+      exact queue_follows_cycle s c hadd hdel hcl hu hla.1 hla.2
     · simp only [hla, if_false]
       exact not_leader_or_account s c hla
 
-/-- the two counter-examples are gone in the repaired model: the in-place extension is enqueued
-(new item added, old item removed) and a full sync removes what vanished -/
+/-- non-vacuity: a history with an appearing, a changing (rebuilt and extended in place), an
+unchanged and a disappearing storage, a non-leader cycle and a full sync -/
 example :
-    let s1 := (cycle {} ⟨true, true, true, [], [⟨"s1", "", ["r1.x"]⟩]⟩).1
-    (cycle s1 ⟨false, true, true, [], [⟨"s1", "", ["r2.x"]⟩]⟩).2 =
-      [.add "s1" ⟨"", ["r1.x", "r2.x"]⟩, .remove "s1" ⟨"", ["r1.x"]⟩] ∧
-    (cycle s1 ⟨true, true, true, [], [⟨"s2", "", ["r2.x"]⟩]⟩).2 =
-      [.add "s2" ⟨"", ["r2.x"]⟩, .remove "s1" ⟨"", ["r1.x"]⟩] ∧
-    (cycle s1 ⟨true, true, true, [], [⟨"s1", "", ["r1.x"]⟩]⟩).2 = [.add "s1" ⟨"", ["r1.x"]⟩] ∧
-    (cycle s1 ⟨false, true, true, [], [⟨"s1", "", ["r1.x"]⟩]⟩).2 = [] := by decide +kernel
+    let h : List Cycle :=
+      [⟨true, true, true, [], [⟨"s1", "", ["h1.x"]⟩, ⟨"s2", "", ["h2.x"]⟩]⟩,
+       ⟨false, true, true, ["s1", "s2"], [⟨"s1", "", ["h1.x", "h3.x"]⟩, ⟨"s2", "", ["h2.x"]⟩, ⟨"s3", "X1", ["h4.x"]⟩]⟩,
+       ⟨false, false, true, ["s3"], []⟩,
+       ⟨false, true, true, [], [⟨"s2", "", ["h5.x"]⟩]⟩,
+       ⟨true, true, true, [], [⟨"s1", "", ["h1.x", "h3.x"]⟩]⟩]
+    (runCycles {} h).2 =
+      [[.add "s2" ⟨"", ["h2.x"]⟩, .add "s1" ⟨"", ["h1.x"]⟩],
+       [.add "s3" ⟨"X1", ["h4.x"]⟩, .add "s1" ⟨"", ["h1.x", "h3.x"]⟩, .remove "s1" ⟨"", ["h1.x"]⟩],
+       [],
+       [.add "s2" ⟨"", ["h2.x", "h5.x"]⟩, .remove "s2" ⟨"", ["h2.x"]⟩],
+       [.add "s1" ⟨"", ["h1.x", "h3.x"]⟩, .remove "s2" ⟨"", ["h2.x", "h5.x"]⟩]] := by decide +kernel
 
-end Fix
+/-! ### the code before the repairs (historical witnesses) -/
+
+/-- finding 1: `s1` is declared, then a full sync without it — the old code sent no `Remove`;
+the repaired code does -/
+theorem full_sync_vanished_not_removed_old :
+    let c1 : Cycle := ⟨true, true, true, [], [⟨"s1", "", ["h1.x"]⟩]⟩
+    let c2 : Cycle := ⟨true, true, true, [], []⟩
+    let s1 := (cycleOld {} c1).1
+    find s1.items "s1" = some ⟨"", ["h1.x"]⟩ ∧ (cycleOld s1 c2).2 = [] ∧
+    oracleCycle true true true s1.items (cycleOld s1 c2).1.items (cycleOld s1 c2).2 =
+      some "full-sync-vanished-storage-not-removed" ∧
+    (cycle (cycle {} c1).1 c2).2 = [.remove "s1" ⟨"", ["h1.x"]⟩] := by decide +kernel
+
+/-- finding 2 at the storages level: a committed storage acquired again (not removed first) and
+extended — the old code enqueued nothing; the repaired code adds the new and removes the old item -/
+theorem inplace_change_not_enqueued_old :
+    let c1 : Cycle := ⟨true, true, true, [], [⟨"s1", "", ["r1.x"]⟩]⟩
+    let c2 : Cycle := ⟨false, true, true, [], [⟨"s1", "", ["r2.x"]⟩]⟩
+    let s1 := (cycleOld {} c1).1
+    (cycleOld s1 c2).2 = [] ∧ find (cycleOld s1 c2).1.items "s1" = some ⟨"", ["r1.x", "r2.x"]⟩ ∧
+    oracleCycle false true true s1.items (cycleOld s1 c2).1.items (cycleOld s1 c2).2 =
+      some "changed-storage-not-enqueued" ∧
+    (cycle (cycle {} c1).1 c2).2 = [.add "s1" ⟨"", ["r1.x", "r2.x"]⟩, .remove "s1" ⟨"", ["r1.x"]⟩] := by
+  decide +kernel
+
+/-! ## (c) the ingress converter feeding the storages -/
+
+theorem acmeUpdate_items (l a : Bool) (s : Storages) : (acmeUpdate l a s).1.items = s.items := by
+  unfold acmeUpdate
+  cases l <;> cases a <;> rfl
+
+/-- the items after an acquisition only depend on the items before it -/
+theorem acquire_items (s : Storages) (n ch : String) (ds : List String) :
+    (acquire s n ch ds).items = insert s.items n
+      (match find s.items n with
+       | none => { chain := assignChain "" ch, doms := addDoms [] ds }
+       | some cur => { chain := assignChain cur.chain ch, doms := addDoms cur.doms ds }) := by
+  unfold acquire
+  cases find s.items n with
+  | none => rfl
+  | some cur => by_cases h : (find s.add n).isSome = true <;> simp [h]
+
+theorem acquire_items_congr (s t : Storages) (h : s.items = t.items) (n ch : String) (ds : List String) :
+    (acquire s n ch ds).items = (acquire t n ch ds).items := by
+  rw [acquire_items, acquire_items, h]
+
+theorem applyAcqs_items_congr (as : List Acq) (s t : Storages) (h : s.items = t.items) :
+    (applyAcqs s as).items = (applyAcqs t as).items := by
+  unfold applyAcqs
+  induction as generalizing s t with
+  | nil => exact h
+  | cons a r ih => simp only [List.foldl_cons]; exact ih _ _ (acquire_items_congr s t h _ _ _)
+
+/-- after a full sync the storages are exactly what the ingress world declares -/
+theorem conv_full_items (s : ConvSt) (c : ConvCycle) (hf : c.full = true) :
+    (convCycle s c).1.st.items = declared c.world := by
+  unfold convCycle convPlan
+  simp only [hf, if_true]
+  rw [cycle_items]
+  unfold preUpdate declared
+  simp only [if_true]
+  exact applyAcqs_items_congr _ _ _ rfl
+
+/-- whatever the tracker makes the converter remove and re-acquire, the queue follows the storages -/
+theorem conv_follows (s : ConvSt) (c : ConvCycle) (hadd : s.st.add = []) (hdel : s.st.del = [])
+    (hcl : s.st.cleared = false) (hu : Uniq s.st.items) (hl : c.leader = true) (ha : c.acct = true) :
+    (∀ n x, QOp.add n x ∈ (convCycle s c).2 ↔
+        find (convCycle s c).1.st.items n = some x ∧ (c.full = true ∨ find s.st.items n ≠ some x)) ∧
+    (∀ n x, QOp.remove n x ∈ (convCycle s c).2 ↔
+        find s.st.items n = some x ∧ find (convCycle s c).1.st.items n ≠ some x) := by
+  have h1 : (convPlan s c).1.full = c.full := by unfold convPlan; cases c.full <;> simp
+  have h2 : (convPlan s c).1.leader = true := by unfold convPlan; cases c.full <;> simp [hl]
+  have h3 : (convPlan s c).1.acct = true := by unfold convPlan; cases c.full <;> simp [ha]
+  have := queue_follows_cycle s.st (convPlan s c).1 hadd hdel hcl hu h2 h3
+  rw [h1] at this
+  exact this
+
+/-- every storage an ingress declares carries at least one domain (finding 3 repaired) -/
+theorem ingAcqs_have_domains (i : Ing) (a : Acq) (h : a ∈ ingAcqs i) : a.doms ≠ [] := by
+  unfold ingAcqs at h
+  split at h
+  · simp only [List.mem_filterMap] at h
+    obtain ⟨t, _, ht⟩ := h
+    split at ht
+    · rename_i hc
+      simp only [Option.some.injEq] at ht
+      subst ht
+      simp only [Bool.and_eq_true, Bool.not_eq_true', List.isEmpty_eq_false_iff] at hc
+      exact hc.2
+    · cases ht
+  · cases h
+
+theorem addDom_ne_nil (l : List String) (d : String) : addDom l d ≠ [] := by
+  cases l with
+  | nil => simp [addDom]
+  | cons x t =>
+    unfold addDom
+    split
+    · simp
+    · split <;> simp
+
+theorem addDoms_ne_nil (l ds : List String) (h : l ≠ [] ∨ ds ≠ []) : addDoms l ds ≠ [] := by
+  unfold addDoms
+  induction ds generalizing l with
+  | nil => rcases h with h | h; exact h; exact absurd rfl h
+  | cons d t ih => simp only [List.foldl_cons]; exact ih _ (Or.inl (addDom_ne_nil l d))
+
+/-- the storages never hold a certificate request without domains when every acquisition names one -/
+def AllDoms (m : SMap) : Prop := ∀ e ∈ m, e.2.doms ≠ []
+
+theorem allDoms_erase {m : SMap} (h : AllDoms m) (n : String) : AllDoms (erase m n) :=
+  fun e he => h e (List.mem_filter.mp he).1
+
+theorem allDoms_insert {m : SMap} (h : AllDoms m) (n : String) (c : Cert) (hc : c.doms ≠ []) :
+    AllDoms (insert m n c) := by
+  intro e he
+  unfold insert at he
+  rcases List.mem_cons.mp he with rfl | he
+  · exact hc
+  · exact allDoms_erase h n e he
+
+theorem acquire_allDoms {s : Storages} (h : AllDoms s.items) (n ch : String) (ds : List String) (hd : ds ≠ []) :
+    AllDoms (acquire s n ch ds).items := by
+  unfold acquire; split
+  · exact allDoms_insert h _ _ (addDoms_ne_nil _ _ (Or.inr hd))
+  · split <;> exact allDoms_insert h _ _ (addDoms_ne_nil _ _ (Or.inr hd))
+
+theorem removeAll_allDoms {s : Storages} (h : AllDoms s.items) (ns : List String) : AllDoms (removeAll s ns).items := by
+  unfold removeAll
+  induction ns generalizing s with
+  | nil => exact h
+  | cons n t ih =>
+    simp only [List.foldl_cons]
+    apply ih
+    unfold removeOne; split
+    · exact allDoms_erase h n
+    · exact h
+
+theorem applyAcqs_allDoms (as : List Acq) {s : Storages} (h : AllDoms s.items) (hd : ∀ a ∈ as, a.doms ≠ []) :
+    AllDoms (applyAcqs s as).items := by
+  unfold applyAcqs
+  induction as generalizing s with
+  | nil => exact h
+  | cons a t ih =>
+    simp only [List.foldl_cons]
+    exact ih (acquire_allDoms h _ _ _ (hd a List.mem_cons_self)) (fun b hb => hd b (List.mem_cons_of_mem _ hb))
+
+theorem convPlan_acqs_have_domains (s : ConvSt) (c : ConvCycle) : ∀ a ∈ (convPlan s c).1.acqs, a.doms ≠ [] := by
+  intro a ha
+  unfold convPlan at ha
+  split at ha
+  · simp only [List.mem_flatMap] at ha
+    obtain ⟨i, _, hi⟩ := ha
+    exact ingAcqs_have_domains i a hi
+  · simp only [List.mem_flatMap] at ha
+    obtain ⟨i, _, hi⟩ := ha
+    exact ingAcqs_have_domains i a hi
+
+/-- over every history of ingress worlds no storage (hence no queue item) is without a domain:
+the precondition of `sign_iff` -/
+theorem conv_items_have_domains (cs : List ConvCycle) :
+    ∀ (s : ConvSt), AllDoms s.st.items → AllDoms (runConv s cs).1.st.items := by
+  induction cs with
+  | nil => intro s h; exact h
+  | cons c cs ih =>
+    intro s h
+    simp only [runConv]
+    apply ih
+    unfold convCycle
+    simp only
+    rw [cycle_items]
+    unfold preUpdate
+    apply applyAcqs_allDoms _ _ (convPlan_acqs_have_domains s c)
+    cases (convPlan s c).1.full
+    · exact removeAll_allDoms h _
+    · intro e he; simp [clear] at he
+
+/-- one cycle of the converter in front of the old storages code -/
+def convCycleOld (s : ConvSt) (c : ConvCycle) : ConvSt × List QOp :=
+  let (cy, T') := convPlan s c
+  let r := cycleOld s.st cy
+  ({ world := c.world, tracker := T', st := r.1 }, r.2)
+
+def wA : World := [{ name := "i1", rule := "r1.x", acme := true, chain := "", tls := [⟨"s1", ["r1.x"]⟩] }]
+def wB : World := wA ++ [{ name := "i2", rule := "r2.x", acme := true, chain := "", tls := [⟨"s1", ["r2.x"]⟩] }]
+
+/-- finding 2 through the converter: a second ingress sharing the TLS secret is added by a partial
+sync. `trackAddedIngress` does not know acme storages, the storage is neither removed nor rebuilt,
+just acquired again: nothing was enqueued by the old code; the repaired code enqueues the new item
+and removes the old one, and the oracle accepts the history -/
+theorem inplace_change_through_converter :
+    let c1 : ConvCycle := ⟨true, true, true, wA⟩
+    let c2 : ConvCycle := ⟨false, true, true, wB⟩
+    let s1 := (convCycleOld {} c1).1
+    (convPlan s1 c2).1.dirty = [] ∧ (convPlan s1 c2).1.acqs = [⟨"s1", "", ["r2.x"]⟩] ∧
+    declared wB = [("s1", ⟨"", ["r1.x", "r2.x"]⟩)] ∧
+    (convCycleOld s1 c2).2 = [] ∧
+    (runConv {} [c1, c2]).2 = [[.add "s1" ⟨"", ["r1.x"]⟩], [.add "s1" ⟨"", ["r1.x", "r2.x"]⟩, .remove "s1" ⟨"", ["r1.x"]⟩]] ∧
+    oracleConv [] [c1, c2] (runConv {} [c1, c2]).2 = none := by decide +kernel
+
+/-- non-vacuity of the oracle: it accepts a full-sync history and rejects the old outputs -/
+example : oracleConv [] [⟨true, true, true, wA⟩, ⟨true, true, true, wB⟩, ⟨true, true, true, []⟩]
+      (runConv {} [⟨true, true, true, wA⟩, ⟨true, true, true, wB⟩, ⟨true, true, true, []⟩]).2 = none ∧
+    oracleConv [] [⟨true, true, true, wA⟩, ⟨true, true, true, []⟩] [[.add "s1" ⟨"", ["r1.x"]⟩], []] =
+      some "full-sync-vanished-storage-not-removed" ∧
+    oracleConv [] [⟨true, true, true, wA⟩, ⟨false, true, true, wB⟩] [[.add "s1" ⟨"", ["r1.x"]⟩], []] =
+      some "changed-storage-not-enqueued" ∧
+    oracleConv [] [⟨true, true, true, wA⟩] [[.add "s1" ⟨"", []⟩]] = some "empty-domain-set-requested" := by
+  decide +kernel
 
 /-! ## facts regenerated from the Go source on every run -/
 
 /-- the decision, the strict `Before`, the due date, the write guard, `VerifyHostname` per domain,
-`DeepEqual` in shrink, `Clear()` carrying over only the backends, the leader/account guards of
-`AcmeUpdate`, and the pre-tracking that knows nothing about acme storages -/
+`DeepEqual` and the `cleared` guard in shrink, the snapshot in `Acquire`, `Clear()` carrying the
+storages over, the leader/account guards of `AcmeUpdate`, the host requirement of an acme TLS block,
+and what `trackAddedIngress` pre-tracks -/
 theorem facts_c17 :
-    Facts.c17VerifyConds = ["errSecret != nil || tls.Crt.NotAfter.Before(duedate) || !match(domains, tls.Crt)",
-      "errSecret != nil", "tls.Crt.NotAfter.Before(duedate)", "crt != nil && key != nil", "err != nil", "errTLS == nil"] ∧
+    Facts.c17VerifyConds = ["errSecret != nil || tls.Crt.NotAfter.Before(duedate) || !match(domains, tls.Crt)", "errSecret != nil", "tls.Crt.NotAfter.Before(duedate)", "crt != nil && key != nil", "err != nil", "errTLS == nil"] ∧
     Facts.c17VerifyDue = ["duedate := time.Now().Add(s.expiring)"] ∧
-    Facts.c17MatchBody = ["found := false",
-      "for _, domain := range domains {\n\tfound = crt.VerifyHostname(domain) == nil\n\tif !found {\n\t\treturn false\n\t}\n}",
-      "return true"] ∧
-    Facts.c17ShrinkConds = ["found && reflect.DeepEqual(add, del)"] ∧
-    Facts.c17AcquireConds = ["!found"] ∧
-    Facts.c17AcquireAssigns = ["storage, found := c.items[name]",
-      "storage = &AcmeCerts{\n\tcerts: map[string]struct{}{},\n}", "c.items[name] = storage", "c.itemsAdd[name] = storage"] ∧
+    Facts.c17MatchBody = ["found := false", "for _, domain := range domains {\n\tfound = crt.VerifyHostname(domain) == nil\n\tif !found {\n\t\treturn false\n\t}\n}", "return true"] ∧
+    Facts.c17ShrinkConds = ["found && reflect.DeepEqual(add, del)", "!c.cleared"] ∧
+    Facts.c17AcquireConds = ["!found", "!tracked", "!removed"] ∧
+    Facts.c17AcquireAssigns = ["storage, found := c.items[name]", "storage = &AcmeCerts{\n\tcerts: map[string]struct{}{},\n}", "c.items[name] = storage", "c.itemsAdd[name] = storage", "_, tracked := c.itemsAdd[name]", "_, removed := c.itemsDel[name]", "c.itemsDel[name] = storage.clone()", "c.itemsAdd[name] = storage"] ∧
     Facts.c17RemoveAllBody = ["for _, name := range names {\n\tif item, found := c.items[name]; found {\n\t\tc.itemsDel[name] = item\n\t\tdelete(c.items, name)\n\t}\n}"] ∧
-    Facts.c17CommitBody = ["c.itemsAdd = map[string]*AcmeCerts{}", "c.itemsDel = map[string]*AcmeCerts{}"] ∧
-    Facts.c17ClearBody = ["config := createConfig(c.options)", "config.backends = c.backends", "config.backends.Clear()", "*c = *config"] ∧
+    Facts.c17StoragesClearBody = ["for name, item := range c.items {\n\tc.itemsDel[name] = item\n}", "c.items = map[string]*AcmeCerts{}", "c.itemsAdd = map[string]*AcmeCerts{}", "c.cleared = true"] ∧
+    Facts.c17CommitBody = ["c.itemsAdd = map[string]*AcmeCerts{}", "c.itemsDel = map[string]*AcmeCerts{}", "c.cleared = false"] ∧
+    Facts.c17ClearBody = ["config := createConfig(c.options)", "config.backends = c.backends", "config.backends.Clear()", "config.acmeData = c.acmeData.ClearStorages()", "*c = *config"] ∧
     Facts.c17AcmeUpdateConds = ["i.config == nil || i.options.AcmeQueue == nil", "le.IsLeader()", "!hasAccount", "storages.Updated()"] ∧
-    Facts.c17AcmeUpdateCalls = [".Storages", "i.config.AcmeData", "le.IsLeader", "i.acmeEnsureConfig", "i.config.AcmeData",
-      "storages.BuildAcmeStoragesAdd", "i.acmeAddStorage", "storages.BuildAcmeStoragesDel", "i.acmeRemoveStorage",
-      "storages.Updated", "i.logger.InfoV", "le.LeaderName"] ∧
-    Facts.c17PreTrackContexts = ["convtypes.ResourceHABackend", "ctx", "convtypes.ResourceHABackend"] := 
-  ⟨rfl, rfl, rfl, rfl, rfl, rfl, rfl, rfl, rfl, rfl, rfl, rfl⟩
+    Facts.c17AcmeUpdateCalls = [".Storages", "i.config.AcmeData", "le.IsLeader", "i.acmeEnsureConfig", "i.config.AcmeData", "storages.BuildAcmeStoragesAdd", "i.acmeAddStorage", "storages.BuildAcmeStoragesDel", "i.acmeRemoveStorage", "storages.Updated", "i.logger.InfoV", "le.LeaderName"] ∧
+    Facts.c17AcmeTLSConds = ["tls.SecretName != \"\"", "tls.SecretName != \"\" && len(tls.Hosts) > 0", "tls.SecretName != \"\""] ∧
+    Facts.c17PreTrackContexts = ["convtypes.ResourceHABackend", "ctx", "ctx", "convtypes.ResourceHABackend"] :=
+  ⟨rfl, rfl, rfl, rfl, rfl, rfl, rfl, rfl, rfl, rfl, rfl, rfl, rfl, rfl⟩
 
 end HapVerif.C17
